@@ -1092,3 +1092,95 @@ func (c *Ctx) deferAfterCheck(rule string, funcs []*FuncInfo, clause string) int
 	}
 	return n
 }
+
+// MEMO-STORED: a recursive function that reads an entry of a slice parameter right after calling
+// itself (`curOnes += ones[nextEdge.Id()]`) relies on the callee having stored that entry. The store
+// (`ones[curEdge.Id()] = curOnes`) is therefore the first thing its block does: no statement before
+// it in that block can return. An early exit placed above it ("nothing to do for a tip branch")
+// leaves a stale count from the previous reference branch in the slot, and every distance computed
+// above that branch is wrong.
+func (c *Ctx) memoStored(rule string, fi *FuncInfo, clause string) int {
+	if fi == nil || fi.Decl.Body == nil {
+		return 0
+	}
+	info := fi.Pkg.TypesInfo
+	params := map[types.Object]bool{}
+	for _, f := range fi.Decl.Type.Params.List {
+		for _, nm := range f.Names {
+			if o := info.Defs[nm]; o != nil {
+				if _, isSl := o.Type().Underlying().(*types.Slice); isSl {
+					params[o] = true
+				}
+			}
+		}
+	}
+	// slice parameters read in the function and handed to the recursive call
+	read := map[types.Object]bool{}
+	ast.Inspect(fi.Decl.Body, func(nd ast.Node) bool {
+		if as, ok := nd.(*ast.AssignStmt); ok {
+			for _, r := range as.Rhs {
+				ast.Inspect(r, func(q ast.Node) bool {
+					if ix, isIx := q.(*ast.IndexExpr); isIx {
+						if o := identObj(info, ix.X); o != nil && params[o] {
+							read[o] = true
+						}
+					}
+					return true
+				})
+			}
+		}
+		return true
+	})
+	n := 0
+	walkStack(fi.Decl.Body, func(nd ast.Node, stack []ast.Node) bool {
+		as, ok := nd.(*ast.AssignStmt)
+		if !ok || len(as.Lhs) != 1 {
+			return true
+		}
+		ix, isIx := unparen(as.Lhs[0]).(*ast.IndexExpr)
+		if !isIx {
+			return true
+		}
+		o := identObj(info, ix.X)
+		if o == nil || !params[o] || !read[o] {
+			return true
+		}
+		n++
+		key := fmt.Sprintf("%s/%s#%d", funcName(fi.Obj), o.Name(), n)
+		var early token.Pos
+		// every enclosing block up to the function body: nothing before the store's ancestor returns,
+		// except at the top level of the function (the `stop` short-cut precedes everything)
+		for i := len(stack) - 1; i >= 1; i-- {
+			blk, isBlk := stack[i].(*ast.BlockStmt)
+			if !isBlk || blk == fi.Decl.Body {
+				continue
+			}
+			var child ast.Node = as
+			if i+1 < len(stack) {
+				child = stack[i+1]
+			}
+			for _, st := range blk.List {
+				if st == child || (st.Pos() <= as.Pos() && as.End() <= st.End()) {
+					break
+				}
+				ast.Inspect(st, func(q ast.Node) bool {
+					if _, isLit := q.(*ast.FuncLit); isLit {
+						return false
+					}
+					if r, isRet := q.(*ast.ReturnStmt); isRet && early == token.NoPos {
+						early = r.Pos()
+					}
+					return true
+				})
+			}
+		}
+		msg := ""
+		if early != token.NoPos {
+			_, ln := c.pos(early)
+			msg = fmt.Sprintf("the function can return at line %d, inside the block of the store `%s`, before the store: the caller then reads `%s[...]` of this call and finds the value left by an earlier computation", ln, c.src(as), o.Name())
+		}
+		c.Check(early == token.NoPos, rule, key, as.Pos(), "nothing in the block of the store can return before it", msg).Clause = clause
+		return true
+	})
+	return n
+}
